@@ -236,6 +236,12 @@ emitSetFileIdName(String name)
 }
 
 void
+emitInfoSetIdName(EmitInfo finfo, String name)
+{
+	finfo->idName = name;
+}
+
+void
 emitSetFileIdPrefix(String name)
 {
 	emitFileIdPrefix = name;
@@ -340,6 +346,7 @@ emitInfoNew(FileName srcfn)
 		emitInfoInUse(finfo, i) = false;
 	}
 	emitInfoIsAXLmain(finfo) = false;
+	finfo->idName = NULL;
 	emitInfoFname(finfo, FTYPENO_SRC) = fnameCopy(srcfn);
 
 	dir  = emitOutputDir;
@@ -462,7 +469,9 @@ emitGetFileIdName(EmitInfo finfo)
 
 	if (emitFileIdName)
 		return emitFileIdName;
-	
+	if (finfo->idName)
+		return finfo->idName;
+
 	name = fnameName(emitSrcFile(finfo));
 	if (emitFileIdPrefix)
 		name = strConcat(emitFileIdPrefix, name);
